@@ -47,14 +47,17 @@ def floors(tier):
     return {"evaluations": int(z["pairs"] * .9), "distinct": int(z["pairs"] * .6),
             "counters": {"judged_open": int(z["pairs"] * .9), "judged_reloaded": int(z["pairs"] * .9), "fmt:number": 2000, "fmt:currency": 2000, "fmt:percentage": 2000,
                          "fmt:scientific": 1500, "fmt:base": 1500, "fmt:fraction": 1500, "fmt:rating": 50, "ties": 500, "negatives": 3000,
-                         "twos_complement_cases": 100},
+                         "twos_complement_cases": 100, "judged_in_two_table_documents": 10000},
             "hist_sizes": {"currency": 300}}
 
 
 def plan(tier, seed):
     z = sizes(tier)
     k = 32 if tier == "quick" else 96
-    return [{"part": "pairs", "stream": i, "n": z["pairs"] // k, "per_doc": z["per_doc"], "k": k, "tier": tier, "seed": seed} for i in range(k)]
+    specs = [{"part": "pairs", "stream": i, "n": z["pairs"] // k, "per_doc": z["per_doc"], "k": k, "tier": tier, "seed": seed} for i in range(k)]
+    for i in range(8 if tier == "quick" else 32):
+        specs.append({"part": "two", "stream": i, "n": 60 if tier == "quick" else 1500, "tier": tier, "seed": seed})
+    return specs
 
 
 # ---------------------------------------------------------------------------------------
@@ -264,15 +267,94 @@ def run_pairs(spec, rec):
             rec.sample(batch[0])
 
 
+def two_tables_case(case, rec):
+    """The same formats applied in two tables of one document, in a different order in each (each table numbers its own
+    formats): what a cell shows depends on its own format only."""
+    from numbers_parser import Document
+    from vf.gen import docs
+    cases, order = case["cases"], case["order"]
+    ncols = 4
+    nrows = (len(cases) + ncols - 1) // ncols
+    with warnings.catch_warnings():
+        warnings.simplefilter("ignore")
+        doc = Document(num_rows=nrows, num_cols=ncols, num_header_rows=0, num_header_cols=0)
+        t0 = doc.sheets[0].tables[0]
+        t1 = doc.sheets[0].add_table("Second", num_rows=nrows, num_cols=ncols) if case["where"] == "table" else None
+        if t1 is None:
+            doc.add_sheet("Other", "Second", num_rows=nrows, num_cols=ncols)
+            t1 = doc.sheets[1].tables[0]
+        placed = []
+        for tbl, seq in ((t0, list(range(len(cases)))), (t1, order)):
+            for slot, i in enumerate(seq):
+                cs = cases[i]
+                r, c = divmod(slot, ncols)
+                kw = dict(cs["kw"])
+                docs._decode_format_kwargs(kw)
+                v = float(cs["v"])
+                try:
+                    tbl.write(r, c, v)
+                    tbl.set_cell_formatting(r, c, cs["t"], **kw)
+                except Exception as e:  # noqa: BLE001
+                    rec.violation("format_refused", {"fmt": cs["t"], "exc": type(e).__name__, "tables": 2}, {"kw": cs["kw"], "v": cs["v"], "msg": str(e)[:200]}, case=case)
+                    return
+                placed.append((0 if tbl is t0 else 1, r, c, cs, v))
+
+        def judge_all(tables, view):
+            for ti, r, c, cs, v in placed:
+                try:
+                    text = tables[ti].cell(r, c).formatted_value
+                except Exception as e:  # noqa: BLE001
+                    rec.violation("formatted_value_raised", {"fmt": cs["t"], "exc": type(e).__name__, "view": view, "tables": 2}, {"kw": cs["kw"], "v": cs["v"], "table": ti, "msg": str(e)[:200]}, case=case)
+                    continue
+                judge(cs["t"], cs["kw"], v, text, rec, case, view + ("/second-table" if ti else ""))
+                rec.count("judged_in_two_table_documents")
+        judge_all([t0, t1], "open")
+        path = os.path.join(docs.scratch_dir(), f"c13-two-{case['rseed']}.numbers")
+        try:
+            docs.save(doc, path)
+            doc2 = Document(path)
+        except Exception as e:  # noqa: BLE001
+            rec.violation("save_or_reopen_raised", {"exc": type(e).__name__, "tables": 2}, {"msg": str(e)[:200]}, case=case)
+            return
+        finally:
+            if os.path.exists(path):
+                os.remove(path)
+        tabs2 = [doc2.sheets[0].tables[0], doc2.sheets[0].tables[1] if case["where"] == "table" else doc2.sheets[1].tables[0]]
+        judge_all(tabs2, "reloaded")
+    rec.case(("two", case["rseed"]), nontrivial=True)
+
+
+def run_two(spec, rec):
+    from numbers_parser.currencies import CURRENCIES
+    rng = random.Random(f"C13-two-{spec['seed']}-{spec['stream']}")
+    currencies = sorted(CURRENCIES)
+    for i in range(spec["n"]):
+        k = rng.randint(4, 12)
+        cases = []
+        for j in range(k):
+            t, kw, v = rand_format(rng, currencies, rng.randrange(1000))
+            cases.append({"t": t, "kw": kw, "v": repr(v)})
+        order = list(range(k))
+        rng.shuffle(order)
+        case = {"part": "two", "rseed": rng.randrange(1 << 40), "cases": cases, "order": order, "where": rng.choice(["table", "table", "sheet"])}
+        two_tables_case(case, rec)
+        if i == 0:
+            rec.sample({"two_tables": {"formats": [c["t"] for c in cases], "order_in_second_table": order}})
+
+
 def run_shard(spec, rec):
     if "cases" in spec:
         for c in spec["cases"]:
             replay(c, rec)
         return
+    if spec.get("part") == "two":
+        return run_two(spec, rec)
     run_pairs(spec, rec)
 
 
 def replay(case, rec):
+    if case.get("part") == "two":
+        return two_tables_case(case, rec)
     if case.get("part") == "pair":
         run_doc([{"t": case["t"], "kw": case["kw"], "v": case["v"]}], rec, "replay")
         rec.case(("replay", str(case)))
